@@ -15,7 +15,7 @@ import (
 type Node struct {
 	ID   int     `json:"id"`          // 1..n, unique; determines the four layer colours
 	Disp string  `json:"d"`           // "block" | "inline" | "iblock" (specified display)
-	Pos  string  `json:"p,omitempty"` // "" (static) | "relative" | "absolute"
+	Pos  string  `json:"p,omitempty"` // "" (static) | "relative" | "absolute" | "fixed"
 	Flt  string  `json:"f,omitempty"` // "" | "left" | "right"
 	Z    *int    `json:"z,omitempty"` // nil = auto
 	Op   float64 `json:"op,omitempty"`
@@ -31,6 +31,7 @@ type Node struct {
 	Ol   int     `json:"ol,omitempty"`
 	Pad  int     `json:"pad,omitempty"`
 	Text string  `json:"tx,omitempty"` // direct text, placed before the children
+	BB   bool    `json:"bb,omitempty"` // break-before:page (top-level in-flow blocks only): starts a new page
 	Kids []*Node `json:"k,omitempty"`
 }
 
@@ -77,7 +78,8 @@ func keyOfColour(r, g, b int) (Key, bool) {
 // --- CSS 2.1 §9.7 relationships between display, position and float -------------------------------
 
 func (n *Node) positioned() bool { return n.Pos != "" }
-func (n *Node) abs() bool        { return n.Pos == "absolute" }
+func (n *Node) abs() bool        { return n.Pos == "absolute" || n.Pos == "fixed" }
+func (n *Node) fixed() bool      { return n.Pos == "fixed" }
 func (n *Node) floated() bool    { return n.Flt != "" && !n.abs() }
 
 // disp is the used display: absolutely positioned and floated boxes are blockified.
@@ -204,6 +206,9 @@ func emitNode(sb *strings.Builder, n *Node) {
 	}
 	if n.Pad != 0 {
 		add("padding:%dpx", n.Pad)
+	}
+	if n.BB {
+		add("break-before:page")
 	}
 	add("background:%s", cssColour(Key{n.ID, LBg}))
 	if n.Bd > 0 {
@@ -534,4 +539,64 @@ func walk(roots []*Node, f func(n *Node, anc []*Node)) {
 	for _, n := range roots {
 		rec(n, nil)
 	}
+}
+
+// ---------------------------------------------------------------------------------------------
+// Paged documents.  A top-level in-flow block with break-before:page starts a new page; no generated
+// box is fragmented (only <html> and <body>, which paint nothing, span several pages).  Boxes with
+// position:fixed are repeated on every page (CSS 2.1 §9.6.1: "boxes with fixed position are
+// repeated on every page"); the rendering tree of a page is therefore the document tree restricted
+// to the boxes laid out on that page plus every fixed box of the other pages, all in document
+// order - which is the "tree order" of Appendix E on that page: a fixed box declared on an earlier
+// page precedes the whole content of the page, one declared on a later page follows it.
+// ---------------------------------------------------------------------------------------------
+
+// pageCount is the number of pages of the document (forced breaks only).
+func pageCount(roots []*Node) int {
+	n := 1
+	for i, r := range roots {
+		if r.BB && i > 0 {
+			n++
+		}
+	}
+	return n
+}
+
+func collectFixed(n *Node, out *[]*Node) {
+	if n.fixed() {
+		*out = append(*out, n)
+		return
+	}
+	for _, c := range n.Kids {
+		collectFixed(c, out)
+	}
+}
+
+// pageRoots returns the children of <body> in the rendering tree of page p: the top-level boxes
+// laid out on the page, and in place of every other top-level box the (outermost) fixed boxes it
+// contains, with their sub-trees.  foreign[id] is -1 / +1 for the boxes of fixed sub-trees declared
+// on an earlier / later page.  The generator keeps the ancestors of such fixed boxes plain (they
+// form no stacking context, have no opacity / transform / overflow), so hoisting the fixed box to
+// <body> changes neither its stacking context nor the state it is painted under.
+func pageRoots(roots []*Node, p int) (out []*Node, foreign map[int]int) {
+	foreign = map[int]int{}
+	cur := 0
+	for i, r := range roots {
+		if r.BB && i > 0 {
+			cur++
+		}
+		if cur == p {
+			out = append(out, r)
+			continue
+		}
+		var fx []*Node
+		collectFixed(r, &fx)
+		side := -1
+		if cur > p {
+			side = 1
+		}
+		walk(fx, func(n *Node, _ []*Node) { foreign[n.ID] = side })
+		out = append(out, fx...)
+	}
+	return out, foreign
 }
